@@ -2,6 +2,8 @@ SPECIFICATION Spec
 CONSTANTS
   MaxSet = 2
   Bases <- BasesNone
+  SendModes <- NoSends
+  PlainApis <- NoSends
   Ordered = TRUE
 ACTION_CONSTRAINT EmitBehaviour
 CHECK_DEADLOCK FALSE
